@@ -8,9 +8,10 @@ META = dict(
               "PERMANENT} x {exception, result}, max_attempts in [1,4], per-class limit for each of the three "
               "classes absent or in [0,3], UNKNOWN cap absent or in [0,3], through Retry/AsyncRetry call+execute; "
               "all 8 classes x {exception,result} with one limited class per job at N=2 (Retry.call); sugar entry points "
-              "(Policy.call, AsyncPolicy.execute, RetryPolicy.execute, AsyncRetryPolicy.call) at N=2; two consecutive calls on "
+              "(Policy.call, AsyncPolicy.execute, RetryPolicy.execute, AsyncRetryPolicy.call, @retry on a sync and an async function, "
+              "RetryPolicy.from_config().call, AsyncRetryPolicy.from_config().execute) at N=2; two consecutive calls on "
               "one object at N=2 (Retry.call, AsyncRetry.execute, Policy.call)",
-        thorough="N=4 / N=3 / N=3 / N=3 and all entry points in every group",
+        thorough="N=4 for Retry.call and AsyncRetry.execute (N=3 for the other two runners) / all 8 classes N=3 on two entry points / all sugar entry points N=3 / twice N=3",
     ),
     assumptions=[
         "clock frozen (deadline never interferes), constant zero strategy, no budget, no abort: C02/C03/C13 cover those",
@@ -26,6 +27,8 @@ GOALS = ["stop:per_class", "stop:unknown_cap", "stop:global", "stop:nonretry", "
 CORE = ["retry.call", "retry.execute", "aretry.call", "aretry.execute"]
 SUGAR = ["policy.call", "policy.execute", "apolicy.call", "apolicy.execute", "rp.call", "rp.execute", "arp.call",
          "arp.execute"]
+MORE = ["deco.call", "adeco.call", "retrycfg.call", "aretrycfg.execute", "rpcfg.call", "rpcfg.execute", "arpcfg.call", "arpcfg.execute",
+        "retry.context", "apolicy.context"]
 ALL8 = [c.name for c in EC]
 
 
@@ -100,38 +103,39 @@ def jobs(tier):
     three = ["TRANSIENT", "UNKNOWN", "PERMANENT"]
     kinds = ["ok", "exc", "res"]
     # (a) core runners, three behavioural groups, all limits symbolic; split by first outcome
-    N = 3 if q else 4
+    #     (thorough: N=4 for Retry.call and AsyncRetry.execute, N=3 for the other two)
     for entry in CORE:
+        N = 3 if (q or entry in ("retry.execute", "aretry.call")) else 4
         for o1 in range(3):
             for k1 in (range(3) if o1 else [0]):
                 pin = {"o1": o1}
                 if o1:
                     pin["k1"] = k1
-                out.append(dict(name=f"core:{entry}:o1={kinds[o1]}:{three[k1] if o1 else '-'}",
+                out.append(dict(name=f"core:N={N}:{entry}:o1={kinds[o1]}:{three[k1] if o1 else '-'}",
                                 harness="rv.props.c01:h_run",
                                 params=dict(entry=entry, N=N, kinds=kinds, classes=three, limits=three, cap="sym",
                                             hooks=False, pin=pin),
-                                max_wall_s=600 if q else 3000, weight=3 if o1 else 1))
+                                max_wall_s=600 if q else 2400, weight=(3 if o1 else 1) * (N - 2)))
     # (b) all 8 classes, one limited class chosen per job
     N = 2 if q else 3
-    for entry in (["retry.call"] if q else CORE):
+    for entry in (["retry.call"] if q else ["retry.call", "aretry.execute"]):
         for lc in ALL8:
             out.append(dict(name=f"all8:{entry}:limit={lc}", harness="rv.props.c01:h_run",
                             params=dict(entry=entry, N=N, kinds=kinds, classes=ALL8, limits=[lc], cap="sym",
                                         hooks=False),
-                            max_wall_s=600 if q else 3000, weight=2))
+                            max_wall_s=600 if q else 2400, weight=2))
     # (c) sugar entry points
     N = 2 if q else 3
-    for entry in (["policy.call", "apolicy.execute", "rp.execute", "arp.call"] if q else SUGAR):
+    for entry in (["policy.call", "apolicy.execute", "rp.execute", "arp.call", "deco.call", "adeco.call", "rpcfg.call", "arpcfg.execute"] if q else SUGAR + MORE):
         out.append(dict(name=f"sugar:{entry}", harness="rv.props.c01:h_run",
                         params=dict(entry=entry, N=N, kinds=kinds, classes=three, limits=three, cap="sym",
                                     hooks=False),
-                        max_wall_s=600 if q else 3000, weight=2))
+                        max_wall_s=600 if q else 2400, weight=2))
     # (d) two calls on one object
     N = 2 if q else 3
     for entry in (["retry.call", "aretry.execute", "policy.call"] if q else CORE + ["policy.call", "arp.execute"]):
         out.append(dict(name=f"twice:{entry}", harness="rv.props.c01:h_run",
                         params=dict(entry=entry, N=N, kinds=kinds, classes=["TRANSIENT", "UNKNOWN"],
                                     limits=["TRANSIENT", "UNKNOWN"], cap="sym", hooks=False, calls=2),
-                        max_wall_s=600 if q else 3000, weight=2))
+                        max_wall_s=600 if q else 2400, weight=2))
     return out
